@@ -15,7 +15,7 @@ func init() {
 		lean:    []string{"JSight.Props.C09", "JSight.Props.C16", "JSight.Props.C19"},
 		exes:    []string{},
 		run:     runC09,
-		rule:    "accepted projects: generated documents, the accepted fixture files, byte-level mutants of fixtures and generated documents with hostile names/paths (spaces, quotes, non-ASCII, invalid UTF-8); every accepted one is serialised and read back with a strict (duplicate-key-detecting, UTF-8-validating) JSON reader; non-trivial = accepted with >= 2 interactions; distinct = distinct input bytes",
+		rule:    "accepted projects: generated documents, the accepted fixture files, byte-level mutants of fixtures and generated documents with hostile names/paths (spaces, quotes, non-ASCII, invalid UTF-8), documents whose JSON-RPC (method, path) pairs differ while their id texts coincide (both orders); every accepted one is serialised and read back with a strict (duplicate-key-detecting, UTF-8-validating) JSON reader; non-trivial = accepted with >= 2 interactions; distinct = distinct input bytes",
 		assume:  []string{"encoding/json produces valid JSON text for the values handed to it (trusted); the check reads that text back strictly"},
 		trusted: []string{"modelled, not verified: encoding/json (escaping, UTF-8 coercion, MarshalIndent)"},
 	}
@@ -186,9 +186,40 @@ func hostileDoc(r *Rng) []byte {
 	return []byte(b.String())
 }
 
+// collisionDoc declares JSON-RPC methods (and HTTP methods) whose (method, path) pairs differ while the TEXT of
+// their ids — the key they are serialised under — is the same: "n /x" on "/y" and "n" on "/x /y", in both orders,
+// possibly with unrelated interactions in between.
+func collisionDoc(r *Rng) []byte {
+	w := []string{"foo", "a", "b c", "x", "get"}
+	n, x, y := w[r.Intn(len(w))], w[r.Intn(len(w))], w[r.Intn(len(w))]
+	rpc := func(name, path string) string {
+		return "URL " + string(quoteSpec([]byte(path))) + "\n  Protocol json-rpc-2.0\n  Method " + string(quoteSpec([]byte(name))) + "\n    Params\n    {}\n"
+	}
+	blocks := []string{rpc(n+" /"+x, "/"+y), rpc(n, "/"+x+" /"+y)}
+	if r.Bool() {
+		blocks[0], blocks[1] = blocks[1], blocks[0]
+	}
+	if r.Chance(1, 3) { // a three-way split
+		blocks = append(blocks, rpc(n+" /"+x+" /"+y[:len(y)/2], "/"+y[len(y)/2:]))
+	}
+	filler := []string{"GET /zz\n  200 any\n", "URL /rpc\n  Protocol json-rpc-2.0\n  Method " + n + "\n    Result\n    {}\n", "TYPE @t\n{}\n"}
+	var b strings.Builder
+	b.WriteString("JSIGHT 0.3\n")
+	for i, blk := range blocks {
+		if i > 0 && r.Bool() {
+			b.WriteString(filler[r.Intn(len(filler))])
+		}
+		b.WriteString(blk)
+	}
+	return []byte(b.String())
+}
+
 func runC09(ctx *Ctx) {
 	r := ctx.Rng.Fork()
 	var docs [][]byte
+	for i := 0; i < ctx.Budget(200, 5000); i++ {
+		docs = append(docs, collisionDoc(r))
+	}
 	for i := 0; i < ctx.Budget(800, 60000); i++ {
 		m := GenModel(r)
 		c, _ := m.Render(RandomStyle(r.Fork()), true)
